@@ -301,9 +301,21 @@ def verify_unit(unit, info, repo, workdir, seed=None, rlimit_mult=1):
         if reg['mode'].startswith('assumed'):
             r['failures'].append(pseudo_failure(unit, reg, 'assumed_changed', 'an assumed (external_body) function changed: its contract was trusted for the baseline text only'))
     frontend = [u for u in r['undecided'] if u.startswith('verus front-end error')]
+    labels = [reg['function'] for reg in changed if reg['mode'] == 'verified']
+    # Placement retry.  Contract lines whose anchor line vanished are placed as late as possible by default; when a changed function then
+    # fails (or no longer parses), the other placement (as early as possible) is tried.  Annotations are ghost code: a placement under
+    # which every obligation is discharged is a proof, whichever it is.
+    if labels and (frontend or any(f['function'] in labels for f in r['failures'])):
+        r_e = verify_unit_once(unit, info, repo, workdir, seed, rlimit_mult, modes={l: 'early' for l in labels})
+        fe_e = [u for u in r_e['undecided'] if u.startswith('verus front-end error') or u.startswith('assemble')]
+        if not fe_e and not any(f['function'] in labels for f in r_e['failures']) and len(r_e['failures']) <= len(r['failures']):
+            r_e['notes'] = r_e['notes'] + ['contract lines of changed function(s) %s placed early (default placement failed)' % ', '.join(labels)]
+            for reg in changed:
+                if reg['mode'].startswith('assumed'):
+                    r_e['failures'].append(pseudo_failure(unit, reg, 'assumed_changed', 'an assumed (external_body) function changed: its contract was trusted for the baseline text only'))
+            return r_e
     if not frontend or not changed:
         return r
-    labels = [reg['function'] for reg in changed if reg['mode'] == 'verified']
     if not labels:
         return r
     for mode in ('contract_only', 'external', 'stub'):
